@@ -28,6 +28,7 @@ EXPLANATION += (' C11.R5 (queue geometry as finite tables, constant folding of t
                 'the range PeekImpl hands to the consumer is exactly slots tail..head-1 modulo capacity in that order; CircularBufferRange::Take(n) keeps exactly the first n '
                 'elements (|first|,|second| in 0..3); ForEach visits every element of first_ and then every element of second_ and is left early only on the callback\'s false.')
 EXPLANATION += ' C11.R1 also checks that the rvalue Add never release()s its argument into nothing. C11.R4 also checks that after an acquiring edge no further acquisition attempt is reachable (lock returns once acquired).'
+EXPLANATION += ' C11.R2 also: the publishing compare-exchange of Add moves head_ from the expected snapshot to expected + 1 (linear forms), and empty() is the equality of head_ and tail_ (agrees with size() == 0).'
 NOT_DECIDED = 'linearizability, ABA/wrap-around and "queued never exceeds capacity" under interleavings; lock() liveness.'
 
 ORD = {0: 'relaxed', 1: 'consume', 2: 'acquire', 3: 'release', 4: 'acq_rel', 5: 'seq_cst'}
